@@ -98,7 +98,7 @@ def _alarm(signum, frame):
     raise Timeout()
 
 
-def capture(fn, seconds=60):
+def capture(fn, seconds=300):
     signal.signal(signal.SIGALRM, _alarm)
     signal.alarm(seconds)
     try:
